@@ -212,6 +212,7 @@ fn loco_inits(kind: &str) -> Vec<Result<Locomotive, String>> {
     let base_l = match kind {
         "conv" => Locomotive::default(),
         "bel" => Locomotive::default_battery_electric_loco(),
+        "hyb" => Locomotive::default_hybrid_electric_loco(),
         _ => {
             let mut v = serde_json::to_value(Locomotive::default()).unwrap();
             v["loco_type"] = serde_json::json!({"DummyLoco": {}});
@@ -560,7 +561,7 @@ impl Prop for C20 {
         "C20"
     }
     fn rule(&self, tier: Tier) -> String {
-        format!("explicit-state search (BFS, deduplicated on the serialized object) over setter sequences: FuelConverter / Generator / ReversibleEnergyStorage with alphabet {{set_mass(None|100 t|200 t, None|Extensive|Intensive), expunge_mass_fields}} to depth {} from 5 initial files (every known/unknown combination of mass and specific value + a redundant inconsistent file); Locomotive conv / BEL / dummy with alphabet {{set_mass(None|M1|M2), set_mass(M1, Extensive), set_mu(0.3|0.25) x {{Mass, ForceMax, SetMassToNone}}, set_force_max(500 kN | mu1*M1*g) x {{Mass, UpdateMu, SetMuToNone, SetMassToNone, SetMassAndMuToNone}}}} (20 letters) to depth {} from 8 initial files (mass / mu / force / baseline+ballast+component masses known or not, consistent or not); Consist and TrainSimBuilder roll-ups over 5 compositions x 3 car mixes x 4 override combinations. Oracle after every transition. distinct_nontrivial = distinct (subject, action, accepted/rejected) signatures.", depth_for(tier, "fc"), depth_for(tier, "conv"))
+        format!("explicit-state search (BFS, deduplicated on the serialized object) over setter sequences: FuelConverter / Generator / ReversibleEnergyStorage with alphabet {{set_mass(None|100 t|200 t, None|Extensive|Intensive), expunge_mass_fields}} to depth {} from 5 initial files (every known/unknown combination of mass and specific value + a redundant inconsistent file); Locomotive conv / BEL / hybrid / dummy with alphabet {{set_mass(None|M1|M2), set_mass(M1, Extensive), set_mu(0.3|0.25) x {{Mass, ForceMax, SetMassToNone}}, set_force_max(500 kN | mu1*M1*g) x {{Mass, UpdateMu, SetMuToNone, SetMassToNone, SetMassAndMuToNone}}}} (20 letters) to depth {} from 8 initial files (mass / mu / force / baseline+ballast+component masses known or not, consistent or not); Consist and TrainSimBuilder roll-ups over 5 compositions x 3 car mixes x 4 override combinations. Oracle after every transition. distinct_nontrivial = distinct (subject, action, accepted/rejected) signatures.", depth_for(tier, "fc"), depth_for(tier, "conv"))
     }
     fn assumptions(&self) -> Vec<String> {
         vec![
@@ -570,7 +571,7 @@ impl Prop for C20 {
         ]
     }
     fn explore(&self, ctx: &mut Ctx) {
-        let subjects: Vec<(&str, usize)> = vec![("fc", 5), ("gen", 5), ("res", 5), ("conv", 8), ("bel", 8), ("dummy", 8), ("rollup", 5)];
+        let subjects: Vec<(&str, usize)> = vec![("fc", 5), ("gen", 5), ("res", 5), ("conv", 8), ("bel", 8), ("hyb", 8), ("dummy", 8), ("rollup", 5)];
         for (s, n) in subjects {
             for init in 0..n {
                 if !ctx.claim() {
